@@ -51,6 +51,11 @@ class DirectFirmware:
             return self._out([("echo:busy: processing", ("info", k)), ("ok", ("ack", k))])
         if b == "report+ok":
             return self._out([(f"X:{val} Y:0.00 Z:0.00 E:0.00 Count X:0 Y:0 Z:0", ("report", k, ("X", float(val)))), ("ok", ("ack", k))])
+        if b == "probe+ok":
+            # Grbl's comma-separated multi-axis forms
+            return self._out([(f"[PRB:{val},2.500,-3.500:1]", ("report", k, ("X", float(val)))), ("ok", ("ack", k))])
+        if b == "grbl-status+ok":
+            return self._out([(f"<Idle|MPos:{val},0.000,0.000|FS:500,8000>", ("report", k, ("X", float(val)))), ("ok", ("ack", k))])
         if b == "report-in-ok":
             return self._out([(f"ok T:{val} /0.0 B:60.0 /0.0", ("ack", k, ("T", float(val))))])
         if b == "ok+async-alarm":
@@ -373,6 +378,10 @@ def plan(tier):
                 for eager in eagers:
                     yield {"statements": stmts, "behaviours": list(behs), "regime": regime, "greeting": greeting, "eager": eager, "line_points": lp}
     healthy = ["ok", "status+ok", "report+ok", "report-in-ok"]
+    # readings in Grbl's multi-axis forms (probe result, status report)
+    for behs in (("probe+ok", "ok"), ("report+ok", "probe+ok"), ("grbl-status+ok", "probe+ok"), ("error", "grbl-status+ok")):
+        for c in cfgs(two, behs, ("Q", "L"), (None,), (False, True), True):
+            items.append((c, 0 if tier == "quick" else 1, None))
     if tier == "quick":
         # every behaviour at every position of a 2-statement history, default schedules of both policies
         for behs in itertools.product(BEHAVIOURS, repeat=2):
